@@ -44,8 +44,11 @@ THEOREMS = [
     'C06Regex.string_regex', 'C06Regex.stringDouble_regex', 'C06Regex.string_patterns', 'C06Regex.bracketBody_isSome', 'C06Regex.br_loop',
     'C06Regex.br_group', 'C06Regex.br_outer', 'C06Regex.bracketBody_spec', 'C06Regex.variableEx_regex', 'C06Regex.exS_eq_rxS2',
     'C06Regex.parseExpr_is_regex_driven_partial2', 'C06Regex.parseScript_fully_regex_driven_partial2',
+    'C06Regex.digits_plus_total', 'C06Regex.optFrac_total', 'C06Regex.optExp_total', 'C06Regex.numBody_total', 'C06Regex.scanExp_rescan',
+    'C06Regex.scanFrac_rescan', 'C06Regex.numCore_rescan', 'C06Regex.readNumber_take', 'C06Regex.number_regex', 'C06Regex.exS_eq_rxS3',
+    'C06Regex.parseExpr_is_regex_driven', 'C06Regex.parseScript_fully_regex_driven',
 ]
-LEAN_TARGETS = ['BareProofs.C06RegexPins', 'BareProofs.C06Regex', 'BareProofs.C06Regex2', 'BareProofs.C06Regex3', 'BareProofs.C06Regex4', 'BareProofs.C06Regex5', 'BareProofs.C06Regex6', 'BareProofs.C06Regex7', 'BareProofs.C06Regex8']
+LEAN_TARGETS = ['BareProofs.C06RegexPins', 'BareProofs.C06Regex', 'BareProofs.C06Regex2', 'BareProofs.C06Regex3', 'BareProofs.C06Regex4', 'BareProofs.C06Regex5', 'BareProofs.C06Regex6', 'BareProofs.C06Regex7', 'BareProofs.C06Regex8', 'BareProofs.C06Regex9']
 EXTRA_TARGETS = ['drv_c06x']
 GEN = ['Regex']
 
